@@ -142,3 +142,51 @@ PROPS["C18"] = {
 
 HOOK_COMMITS = []
 NOT_APPLICABLE = {}
+
+
+# which clause of each property is decided how (copied into the evidence of every run)
+CLAUSES = {
+    "C01": {"first apply (no previous record): configuration nodes present, scalars carry its value": "theorem (SMD.C01, when present in the audit) + judge",
+            "general case (configuration survives pruning)": "correspondence + judge configuration-takes-effect after every successful apply"},
+    "C02": {"adds/changes only configuration fields; removes only beneath abandoned fields; others keep values": "correspondence + judges (frame conditions on Compare(live, result))",
+            "disjoint configurations commute": "not decided separately (covered only through correspondence of both orders when generated)"},
+    "C03": {"a manager's first apply removes nothing": "theorem first_apply_is_merge / apply_with_empty_record_is_merge + judge",
+            "abandoned unowned fields are removed, leave the record": "correspondence + judge abandoned-field-removed (reading R3)"},
+    "C04": {"force never conflicts; unforced success = forced; conflict non-empty, other managers only": "theorems",
+            "the conflict list is exactly the set of other managers' fields changed or created": "judge against an independent Compare(live, forced result)"},
+    "C05": {"applier owns exactly its (filtered) configuration; others only shrink, keep version/status; no empty record; updater equation": "theorems (managed fields sorted by manager = Go map invariant)",
+            "others lose exactly the changed/created/removed fields": "judge against an independent diff"},
+    "C06": {"live object valid, every owned path designates something present, only conflict errors": "correspondence + judges (independent path resolver)",
+            "typed operations total on accepted values": "theorems SMD.C13.*_ok_of_valid"},
+    "C07": {"no-op signal exact": "theorems", "re-apply / extract-apply fixed point": "judge (second Apply after every successful apply)"},
+    "C08": {"conversion failure at any recorded version surfaces as an error with no object": "theorems (for every converter)",
+            "arguments unchanged": "observational: canonical snapshots before/after every call in every domain"},
+    "C09": {"every Go map iteration accounted for; permutation invariance of conflicts, per-version unions, map validation, map field sets": "theorems (fact table regenerated from /repo each run)",
+            "independence of call history / pooled state / representation": "observational: repeat-call judges, 3x3 representations, known finding D10"},
+    "C10": {"protocols (once, mutex memo, copy-on-write cache) linearizable, sound, exclusive": "theorems over all interleavings",
+            "every access to the shared fields inside its protocol": "theorem guard_table_admissible on the table regenerated from /repo each run",
+            "no data race in the Go memory model": "race detector on the conc domain (search tool)"},
+    "C11": {"self-comparison empty; from/to nothing only adds/removes; result sets well formed": "theorems",
+            "agreement with a reference diff, disjointness, swap": "correspondence + judges (independent normal form)"},
+    "C12": {"scalar right-wins; merge with nothing; panic only from unresolved inline reference; totality": "theorems",
+            "right wins / no removal / union / idempotence / associativity / ordering": "correspondence + judges"},
+    "C13": {"accepted iff conforms (independent reference validator); never panics; resolve congruence; operations total on accepted values": "theorems",
+            "schema documents accepted iff they conform to the schema of schemas": "correspondence against validation of the decoded document under the schema of schemas shipped from the source"},
+    "C14": {"remove/extract nothing; field sets well formed; no invented entries; (node laws when present in the audit)": "theorems",
+            "partition law over subsets of leaf paths": "judge"},
+    "C15": {"all clauses": "theorems (refinement of every trie operation to set algebra on paths, invariant closure, iteration order, extensional equality)"},
+    "C16": {"parse(emit s) = s; every parse well formed; unknown kinds skipped; repeated keys tolerated": "theorems (tree level, lawful key codec as named hypothesis)",
+            "key text (JSON payload of path elements), canonical bytes, byte fuzz": "correspondence + judges; known finding D6"},
+    "C17": {"all clauses for values, key lists, path elements, matchers, paths, sorted containers": "theorems",
+            "schema equality relates exactly the structurally identical schemas": "correspondence + judges on re-parses and single-point edits"},
+    "C18": {"Set/Delete change exactly that entry (abstract value)": "theorems",
+            "reflection = encoding/json round trip; equality/ordering/typed operations agree; JSON/YAML round trips": "correspondence + judges (external libraries)"},
+    "C19": {"filter algebra (exclude = recursive difference, include = compatible paths); actor never owns ignored paths": "theorems",
+            "no conflicts / no ownership loss from ignored-only changes; ignored values flow": "judges; known finding D8"},
+    "C20": {"records at missing versions dropped without effect": "theorems",
+            "granular -> atomic reconcile": "correspondence + judge (cut at outermost atomic prefix, idempotent)",
+            "lossless converter transparency": "correspondence (renaming converter in the model) + judge versioned run = single-version run"},
+}
+for _p, _c in CLAUSES.items():
+    if _p in PROPS:
+        PROPS[_p]["clauses"] = _c
